@@ -353,3 +353,40 @@ package bigslice
 //@   may_panic
 //@   flag abstract_calls frame.Frame.Index
 //@   modifies shards[:], ColMem, userCalls, lastCallRvs
+
+// ---- C01: Head delivers at most the first n rows of each shard ----
+
+// With k rows still allowed: none allowed ⇒ end-of-stream without reading; otherwise one read of the underlying
+// reader, of which at most k rows are handed on, together with the reader's error; the allowance shrinks by the rows read.
+//@ func bigslice.(*headReader).Read (ctx, out) (n, err)
+//@   requires h != nil && h.reader != nil
+//@   may_panic
+//@   ensures  exhausted: implies(old(h.n) <= 0, n == 0 && err == sliceio.EOF && h.reader.nreads == old(h.reader.nreads) && h.n == old(h.n))
+//@   ensures  capped: implies(old(h.n) > 0, h.reader.nreads == old(h.reader.nreads) + 1 && n == min(h.reader.lastN, old(h.n)) && err == h.reader.lastErr && h.n == old(h.n) - h.reader.lastN)
+//@   modifies h.n, SReader.nreads, SReader.lastN, SReader.lastErr, rowsSupplied, sawRowsWithEOF, ColMem
+
+// ---- C01: Map and Filter readers (control protocol; frame plumbing abstracted) ----
+
+// Map reads its upstream once per call, applies the function once per row read and hands on exactly that many rows
+// with the upstream's error; errors are sticky.
+//@ func bigslice.(*mapReader).Read (ctx, out) (n, err)
+//@   requires m != nil && m.op != nil && m.reader != nil
+//@   may_panic
+//@   flag abstract_calls frame.Make, frame.Frame.Ensure, frame.Frame.Slice, frame.Frame.Index, frame.Frame.Len, frame.Frame.IsZero
+//@   ensures  sticky: implies(old(m.err) != nil, n == 0 && err == old(m.err) && m.reader.nreads == old(m.reader.nreads) && userCalls == old(userCalls))
+//@   ensures  one-read: implies(m.reader.nreads > old(m.reader.nreads), m.reader.nreads == old(m.reader.nreads) + 1 && n == m.reader.lastN && err == m.reader.lastErr && m.err == err)
+//@   ensures  one-call-per-row: implies(m.reader.nreads > old(m.reader.nreads) && m.reader.lastN >= 0, userCalls == old(userCalls) + m.reader.lastN)
+//@   modifies m.in, m.err, ColMem, colClock, userCalls, lastCallRvs, SReader.nreads, SReader.lastN, SReader.lastErr, rowsSupplied, sawRowsWithEOF
+//@   loop 1 invariant 0 <= i && i <= n && userCalls == old(userCalls) + i && m.reader == old(m.reader) && m.reader.nreads == old(m.reader.nreads) + 1 && n == m.reader.lastN && m.err == m.reader.lastErr && old(m.err) == nil
+
+// Filter reads upstream until its output is full or the upstream ends or fails; it stops reading after an upstream
+// error or end-of-stream, returns that error with the rows accepted so far, and the error is sticky.
+//@ func bigslice.(*filterReader).Read (ctx, out) (n, err)
+//@   requires f != nil && f.op != nil && f.reader != nil
+//@   may_panic
+//@   flag abstract_calls frame.Make, frame.Frame.Ensure, frame.Frame.Slice, frame.Frame.Value, frame.Copy, frame.Frame.Len, frame.Frame.IsZero, reflect.Value.Index
+//@   ensures  sticky: implies(old(f.err) != nil, n == 0 && err == old(f.err) && f.reader.nreads == old(f.reader.nreads))
+//@   ensures  error-is-the-upstreams: implies(f.reader.nreads > old(f.reader.nreads), err == f.err && implies(err != nil, err == f.reader.lastErr))
+//@   modifies f.in, f.err, ColMem, colClock, userCalls, lastCallRvs, SReader.nreads, SReader.lastN, SReader.lastErr, rowsSupplied, sawRowsWithEOF
+//@   loop 1 invariant f.reader == old(f.reader) && f.reader.nreads >= old(f.reader.nreads) && old(f.err) == nil && implies(f.reader.nreads > old(f.reader.nreads), f.err == f.reader.lastErr) && implies(f.reader.nreads == old(f.reader.nreads), f.err == nil)
+//@   loop 2 invariant f.reader == old(f.reader) && f.reader.nreads > old(f.reader.nreads) && old(f.err) == nil && f.err == f.reader.lastErr
